@@ -512,7 +512,18 @@ def callers_of(cx, fn):
 
 
 def call_args(cx, s):
+    """Argument expressions of a call site. Where the function carries path-dependent selector values (a bool flag,
+    an `Option` built as Some(..) on one branch and None on the other) and every way of reaching the call agrees on
+    them, the arguments are evaluated with those values (DESIGN 3.4, path-sensitive environments)."""
     a = cx.prog.A(s.fn)
+    try:
+        g = cx.pg(s.fn) if hasattr(cx, "pg") else None
+    except Exception:
+        g = None
+    if g is not None and g.tracked and not g.truncated:
+        v = g.eval_at(s.at, lambda env: tuple(a.expr_operand(o, s.at, 0, env) for o in s.data["term"]["args"]))
+        if v is not None:
+            return list(v)
     return [a.expr_operand(o, s.at) for o in s.data["term"]["args"]]
 
 
